@@ -288,9 +288,13 @@ func TestVerifC08(t *testing.T) {
 	// Every status code: one uploader, one ready report, one request answered with the code, then a
 	// second run against a server that accepts. 200 marks the week uploaded; every 4xx discards the
 	// report without marking it; everything else leaves it in place and the second run delivers it.
-	for code := 100; code <= 599; code++ {
+	for code := 99; code <= 599; code++ {
 		if !p.Mine(code) {
 			continue
+		}
+		silent := code == 99 // not a status: the server accepts the request and never answers
+		if silent {
+			code = vhttp.Silence
 		}
 		u := zzvNewU(base)
 		u.setModeRaw("on 2020-01-01")
@@ -305,7 +309,7 @@ func TestVerifC08(t *testing.T) {
 		_, stagedErr := os.Stat(staged)
 		res.Evaluations++
 		fail := func(sig, format string, args ...any) {
-			res.Violate(sig, fmt.Sprintf(format, args...)+fmt.Sprintf(" [server answers %d]", code), map[string]any{"status": code})
+			res.Violate(sig, fmt.Sprintf(format, args...)+fmt.Sprintf(" [server answers %d (-1: never)]", code), map[string]any{"status": code})
 		}
 		switch {
 		case code == 200:
@@ -320,6 +324,9 @@ func TestVerifC08(t *testing.T) {
 				fail("client-error-not-discarded", "the report refused with a client error is still staged and would be sent again")
 			}
 		default:
+			if silent && vhttp.Unbounded > 0 {
+				fail("request-without-time-limit", "the request has no client-side time limit: a server that never answers blocks this uploader, and the week's lock it holds, for ever")
+			}
 			if markerErr == nil {
 				fail("non-200-marked-uploaded", "marked uploaded without an acknowledgement")
 			}
@@ -333,7 +340,12 @@ func TestVerifC08(t *testing.T) {
 				fail("not-retried", "the report was not sent again by the next run (%d further requests)", len(vhttp.Log)-n)
 			}
 		}
-		res.Class(fmt.Sprintf("status/%dxx", code/100))
+		if silent {
+			res.Class("status/silent")
+			code = 99
+		} else {
+			res.Class(fmt.Sprintf("status/%dxx", code/100))
+		}
 		u.close()
 	}
 	// Foreign files next to the reports: whatever else lies in local/, a ready report is delivered
